@@ -54,12 +54,14 @@ theorem transform_consistent (a b : Bool) (x : CName) (c : Coll) (p : List CName
     of the tree (collection path, binding name, default flag, lexicon aliases), each exactly once.  The
     flat listing is exactly one line per binding, the task lines of the nested listing are exactly one
     per binding, and the task records of the JSON document are exactly one per binding - each carrying
-    the binding name and exactly the lexicon aliases (declared on the task and given to `add_task`). -/
-theorem listing_once_all_formats (c : Coll) (anc : List CName) :
-    flatPairs c anc = (bindings c anc).map Binding.flat ∧
-    (nestedPairs c anc).filter NLine.isTask = (bindings c anc).map Binding.nested ∧
+    the binding name and exactly the lexicon aliases (declared on the task and given to `add_task`);
+    flat and nested show them as normalised by the ROOT's `transform` (`rad` = its `auto_dash_names`),
+    the JSON document shows each collection's own spelling. -/
+theorem listing_once_all_formats (rad : Bool) (c : Coll) (anc : List CName) :
+    flatPairs rad c anc = (bindings c anc).map (Binding.flat rad) ∧
+    (nestedPairs rad c anc).filter NLine.isTask = (bindings c anc).map (Binding.nested rad) ∧
     jsonTasks (serialized c) = (bindings c anc).map (fun b => (b.key, b.aliases)) :=
-  ⟨flat_eq_bindings c anc, nested_eq_bindings c anc, json_eq_bindings c anc⟩
+  ⟨flat_eq_bindings rad c anc, nested_eq_bindings rad c anc, json_eq_bindings c anc⟩
 
 /-- In a well-formed tree no two `task_names` entries have the same primary name (so the parser never
     sees a primary name twice).  What `wf` contributes: per collection, task keys pairwise distinct and
@@ -70,45 +72,51 @@ theorem listing_once_all_formats (c : Coll) (anc : List CName) :
 theorem primary_names_distinct (c : Coll) (hW : wf c = true) : ((taskNames c).map (·.1)).Nodup :=
   primaries_nodup c hW
 
-/-- LISTING ONCE.  In a well-formed tree with ONE `auto_dash_names` setting every task appears exactly
-    once under its primary name: the names shown by the flat listing are, in order, exactly the primary
-    names of `task_names` (= the names of the parser contexts), these are pairwise distinct, and each
-    occurs exactly once.  By `listings_agree` the same holds for the nested and the JSON format. -/
-theorem listing_once (c : Coll) (hW : wf c = true) (hU : uniformDash c.autoDash c = true) :
-    (flatPairs c []).map (·.1) = (taskNames c).map (·.1) ∧ ((taskNames c).map (·.1)).Nodup ∧
-    ∀ e ∈ taskNames c, ((flatPairs c []).map (·.1)).count e.1 = 1 :=
-  flat_names_once c hW hU
+/-- LISTING ONCE.  In EVERY well-formed tree - whatever `auto_dash_names` its collections have - every
+    task appears exactly once under its primary name: the names shown by the flat listing are, in order,
+    exactly the primary names of `task_names` (= the names of the parser contexts), these are pairwise
+    distinct, and each occurs exactly once.  By `listings_agree` the same holds for the nested format
+    (and, up to the root's normalisation of the last component, for the JSON format). -/
+theorem listing_once (c : Coll) (hW : wf c = true) :
+    (flatListing c).map (·.1) = (taskNames c).map (·.1) ∧ ((taskNames c).map (·.1)).Nodup ∧
+    ∀ e ∈ taskNames c, ((flatListing c).map (·.1)).count e.1 = 1 :=
+  flat_names_once c hW
 
-/-- …together with its aliases: position by position the binding behind a listing line and the
-    `task_names` entry have the same dotted name, every listed alias is an alias of the entry, and the
-    entry has no further alias except collection-name shortcuts (proper prefixes of the name).
-    Trees mixing `auto_dash_names` settings are excluded: there the listing prints the sub-collection's own
-    spelling (`mixed_dash_listing_counterexample`, known finding N4). -/
-theorem listing_aliases_match (c : Coll) (hW : wf c = true) (hU : uniformDash c.autoDash c = true) :
-    Pairs (Matches []) (bindings c []) (taskNames c) :=
-  bindings_match c c.autoDash hW hU []
+/-- …together with its aliases, in EVERY well-formed tree: position by position the binding behind a
+    listing line and the `task_names` entry have the same dotted name (the primary name), every listed
+    alias is an alias of the entry, and the entry has no further alias except collection-name shortcuts
+    (proper prefixes of the name). -/
+theorem listing_aliases_match (c : Coll) (hW : wf c = true) :
+    Pairs (ListedAs c.autoDash) (bindings c []) (taskNames c) :=
+  bindings_listed_as c hW
+
+/-- the same correspondence without any hypothesis on the tree, names compared as the root normalises them -/
+theorem listing_aliases_match_all_trees (rad : Bool) (c : Coll) :
+    Pairs (Matches rad []) (bindings c []) (taskNames c) :=
+  bindings_match rad c []
 
 /-- LISTINGS AGREE.  For every tree the three formats carry, position by position, the same
-    (dotted binding name, aliases) pairs: the flat lines (their declared aliases, i.e. without the
-    collection-name shortcut), the task lines of the nested listing, and - as last components - the task
-    records of the JSON document.  With `listing_once` / `listing_aliases_match` these pairs are, for a
-    well-formed tree with one `auto_dash_names` setting, the primary names and aliases the CLI accepts. -/
+    (dotted name, aliases) pairs: the flat lines (their declared aliases, i.e. without the
+    collection-name shortcut), the task lines of the nested listing, and - as last components, spelled
+    as the root spells them - the task records of the JSON document (which itself keeps each collection's
+    own spelling: it describes every collection locally and cannot be read as dotted CLI names). -/
 theorem listings_agree (c : Coll) :
-    (flatPairs c []).map flatDeclared = (bindings c []).map Binding.cli ∧
-    ((nestedPairs c []).filter NLine.isTask).map NLine.cli = (bindings c []).map Binding.cli ∧
-    jsonTasks (serialized c) = ((bindings c []).map Binding.cli).map Entry.leaf :=
+    (flatListing c).map flatDeclared = (bindings c []).map (Binding.cli c.autoDash) ∧
+    ((nestedListing c).filter NLine.isTask).map NLine.cli = (bindings c []).map (Binding.cli c.autoDash) ∧
+    (jsonTasks (serialized c)).map (normRecord c.autoDash) =
+      ((bindings c []).map (Binding.cli c.autoDash)).map Entry.leaf :=
   listings_agree_all c
 
-/-- as sets of pairs (uniform, well-formed tree): flat and nested show the same pairs, whose names are
-    exactly the accepted primary names -/
-theorem listings_agree_with_cli (c : Coll) (hW : wf c = true) (hU : uniformDash c.autoDash c = true) :
-    (flatPairs c []).map flatDeclared = ((nestedPairs c []).filter NLine.isTask).map NLine.cli ∧
-    ((flatPairs c []).map flatDeclared).map (·.1) = (taskNames c).map (·.1) := by
+/-- for EVERY well-formed tree: flat and nested show the same pairs, whose names are exactly the accepted
+    primary names -/
+theorem listings_agree_with_cli (c : Coll) (hW : wf c = true) :
+    (flatListing c).map flatDeclared = ((nestedListing c).filter NLine.isTask).map NLine.cli ∧
+    ((flatListing c).map flatDeclared).map (·.1) = (taskNames c).map (·.1) := by
   obtain ⟨h1, h2, _⟩ := listings_agree_all c
   refine ⟨h1.trans h2.symm, ?_⟩
   rw [h1, List.map_map]
   show _ = primaries c
-  rw [← bindings_names_eq_primaries c hW hU]
+  rw [← bindings_names_eq_primaries c hW]
   exact List.map_congr_left (fun b _ => rfl)
 
 /-! ## non-vacuity and the behaviour before the repairs -/
@@ -141,13 +149,13 @@ example : (taskNames mixed).map (·.1) =
     [[S "top_x"], [S "in_ner", S "u"], [S "in_ner", S "b", S "t"], [S "in_ner", S "b", S "my_task"]] := by decide
 
 example : uniformDash root.autoDash root = true := by decide
-example : (flatPairs root []).map flatDeclared =
+example : (flatListing root).map flatDeclared =
     [([S "top"], [[S "al"]]), ([S "in-ner", S "u"], []),
      ([S "in-ner", S "b", S "t"], [[S "in-ner", S "b", S "tt"], [S "in-ner", S "b", S "x-t"]]),
      ([S "in-ner", S "b", S "my-task"], [])] := by decide
 example : jsonTasks (serialized root) =
     [(S "top", [S "al"]), (S "u", []), (S "t", [S "tt", S "x-t"]), (S "my-task", [])] := by decide
-example : (bindings root []).map Binding.flat =
+example : (bindings root []).map (Binding.flat root.autoDash) =
     [([S "top"], [[S "al"]]),
      ([S "in-ner", S "u"], []),
      ([S "in-ner", S "b", S "t"], [[S "in-ner", S "b"], [S "in-ner", S "b", S "tt"], [S "in-ner", S "b", S "x-t"]]),
@@ -155,13 +163,21 @@ example : (bindings root []).map Binding.flat =
 example : [S "in-ner", S "b", S "t"] ∈ acceptedNames root ∧ S "in-ner.b.t" ∈ acceptedStrings root := by decide
 example : canonical root (splitOnDot (S "in-ner.b.x-t")) := ⟨by decide, by decide⟩
 
-/-- known finding N4: with the flag off at the root only, the flat listing prints the sub-collection's
-    own spelling `in_ner.b.my-task`, while the parser is keyed by `in_ner.b.my_task` -/
+-- mixed settings (flag off at the root only): the listing shows what the CLI accepts, the JSON keeps `my-task`
+example : (flatListing mixed).map (·.1) = (taskNames mixed).map (·.1) := by decide
+example : [S "in_ner", S "b", S "my_task"] ∈ (flatListing mixed).map (·.1) ∧
+    (S "my-task", []) ∈ jsonTasks (serialized mixed) ∧
+    (S "my_task", []) ∈ (jsonTasks (serialized mixed)).map (normRecord mixed.autoDash) := by decide
+
+/-- before "task listings show names as normalized by the top-level collection" (N4): with the flag off at
+    the root only, the flat listing printed the sub-collection's own spelling `in_ner.b.my-task`, while the
+    parser is keyed by `in_ner.b.my_task`; the repaired listing shows the latter -/
 theorem mixed_dash_listing_counterexample :
     uniformDash mixed.autoDash mixed = false ∧
-    [S "in_ner", S "b", S "my-task"] ∈ (flatPairs mixed []).map (·.1) ∧
+    [S "in_ner", S "b", S "my-task"] ∈ flatNamesPinned mixed ∧
     [S "in_ner", S "b", S "my-task"] ∉ acceptedNames mixed ∧
-    [S "in_ner", S "b", S "my_task"] ∈ acceptedNames mixed := by decide
+    [S "in_ner", S "b", S "my_task"] ∈ acceptedNames mixed ∧
+    [S "in_ner", S "b", S "my_task"] ∈ (flatListing mixed).map (·.1) := by decide
 
 /-- before "aliases given to add_task are accepted as CLI task names": a lexicon alias that is not the
     task's own was resolved by lookup but missing from the parser -/
